@@ -741,7 +741,7 @@ impl Runner {
         let sql = p.sql();
         let neg = sql.contains("NOT (") || sql.contains("<>");
         let zone_based = kinds.iter().any(|k| k == "ZoneMap" || k == "BloomFilter");
-        let tag = format!("{}{}{}{}", if has_not_over_in_conjunction(&p, false) { "not-over-in-conjunction:" } else { "" }, if kinds.is_empty() { "noindex".to_string() } else { kinds.join("+") }, if neg && !kinds.is_empty() { ":negation" } else { "" }, "").to_string() + &self.idx_tags(&self.used_index_cols(&pc, &[]));
+        let tag = format!("{}{}{}{}", if has_not_over_in_conjunction(&p, false) { "not-over-in-conjunction:" } else { "" }, if kinds.is_empty() { "noindex".to_string() } else { kinds.join("+") }, if neg && !kinds.is_empty() { ":negation" } else { "" }, "").to_string() + &self.idx_tags(&self.used_index_cols(&pc, &[])) + if kinds.iter().any(|k| k == "NGram") && crate::model::has_trigramless_needle(&sql) { ":trigramless-needle" } else { "" };
         match self.ds.count_rows(Some(p.sql())).await {
             Ok(n) if n == expect => {}
             Ok(n) => self.res.violate("C16", "O-count", &format!("count-filter-mismatch:{}", tag), self.step, format!("count_rows({})={} model={}", p.sql(), n, expect)),
@@ -956,6 +956,8 @@ impl Runner {
                             }
                         }
                         let stable = self.idx_tags(&self.used_index_cols(&pcols, &[]));
+                        // precondition of KF-27: an n-gram index is asked for a needle without any alphanumeric trigram
+                        let stable = if kinds.iter().any(|k| k == "NGram") && crate::model::has_trigramless_needle(&sql) { format!("{}:trigramless-needle", stable) } else { stable };
                         self.res.violate(prop, "O-index-diff", &format!("index-vs-scan:{}:{}{}", class, kinds.join("+"), stable), self.step, format!("filter `{}` kinds {:?}: with index {}", sql, kinds, diff_rows(&b, &a)));
                     } else if sorted(&b) != sorted(&expect) {
                         let t = if has_not_over_in_conjunction(&p, false) { "filter-vs-model:not-over-in-conjunction" } else { "filter-vs-model" };
